@@ -12,8 +12,29 @@ pub mod c11;
 pub mod c04;
 pub mod c05;
 pub mod c06;
+#[cfg(feature = "charsets")]
 pub mod c18;
+
+/// stand-in for the checks that need the library's `charsets` feature (the "plain" build of the harness
+/// runs the body-reading checks only)
+#[cfg(not(feature = "charsets"))]
+pub mod c18 {
+    pub fn scenario(_g: &mut crate::gen::G, _ctx: &crate::runner::RunCtx) -> crate::runner::RunReport {
+        crate::runner::RunReport { verdict: crate::runner::violation("harness:not-in-this-build", "this check needs the charsets feature"), shape: String::new(), nontrivial: false, stats: Default::default(), sched_tape: Vec::new(), describe: String::new() }
+    }
+}
 pub mod c14;
 pub mod c12;
 pub mod c08;
+#[cfg(feature = "charsets")]
 pub mod c16;
+
+/// stand-in for the checks that need the library's `charsets` feature (the "plain" build of the harness
+/// runs the body-reading checks only)
+#[cfg(not(feature = "charsets"))]
+pub mod c16 {
+    pub fn scenario(_g: &mut crate::gen::G, _ctx: &crate::runner::RunCtx) -> crate::runner::RunReport {
+        crate::runner::RunReport { verdict: crate::runner::violation("harness:not-in-this-build", "this check needs the charsets feature"), shape: String::new(), nontrivial: false, stats: Default::default(), sched_tape: Vec::new(), describe: String::new() }
+    }
+}
+
